@@ -2,6 +2,7 @@ package main
 
 import (
 	"fmt"
+	"math"
 	"sync"
 
 	mocker "github.com/tencent/goom"
@@ -15,9 +16,15 @@ func init() { register("stub", stubCmd) }
 // value ids: ints 0..9 are themselves; strings "a","b","c","" are 10..13; result ids are ints >= 100
 var strDom = []string{"a", "b", "c", ""}
 
+// bigDom: the four ids of kind 'b' are 64-bit integers that differ only below 2^53 (they collapse when compared as float64)
+var bigDom = [4]int{math.MaxInt64, math.MaxInt64 - 1, 1<<53 + 1, 1 << 53}
+
 func idToVal(id int, kind byte) interface{} {
 	if kind == 's' {
 		return strDom[(id-10)%4]
+	}
+	if kind == 'b' {
+		return bigDom[id%4]
 	}
 	return id
 }
@@ -76,6 +83,13 @@ func stargets() []starget {
 				return -2
 			}
 			return r
+		}},
+		{"G2big", 1, []byte{'b'}, 0, func(b *mocker.Builder) mocker.ExportedMocker { return b.Func(fnzoo.G2) }, func(a []int) int {
+			v := bigDom[a[0]%4]
+			if r := fnzoo.G2(v); r != -1200-v { // the original's answer wraps around for these arguments: report it in id space
+				return r
+			}
+			return -1200 - a[0]%4
 		}},
 		{"T.M", 1, []byte{'i'}, 0, func(b *mocker.Builder) mocker.ExportedMocker { return b.Struct(&fnzoo.T{}).Method("M") }, func(a []int) int { return theT.M(a[0]) }},
 		{"T.V", 1, []byte{'i'}, 0, func(b *mocker.Builder) mocker.ExportedMocker { return b.Struct(fnzoo.T{}).Method("V") }, func(a []int) int { return fnzoo.T{K: 2}.V(a[0]) }},
